@@ -14,7 +14,7 @@ ASSUMPTIONS = ['accepted side: unit norm within 1e-12, direction cosine with the
                'the generator behind random_attitudes is an owned seam: np.random.default_rng is replaced by a stub whose uniform() returns every point of {0,1e-12,.25,.5,.75,1-1e-12}^3',
                'rotate_by(order="S") is only required to return unit rows (its intended ordering semantics are ambiguous in the documentation)',
                'infinite components are not judged (the statement speaks of finite vectors and of NaN)']
-REQUIRED_CLASSES = ['reject:object-unchanged', 'near-unit', 'vec3', 'vec4', 'array', 'dcm-route', 'addsub', 'addsub:near-cancelling', 'rotate_by', 'average', 'random', 'reject:vector', 'reject:matrix', 'accept:matrix', 'layout']
+REQUIRED_CLASSES = ['reject:object-unchanged', 'near-unit', 'vec3', 'vec4', 'array', 'dcm-route', 'addsub', 'addsub:near-cancelling', 'rotate_by', 'average', 'random', 'reject:vector', 'reject:matrix', 'reject:matrix-history', 'accept:matrix', 'layout']
 DECADES = [10.0 ** k for k in range(-100, 101, 10)]
 
 
@@ -588,6 +588,24 @@ def job_reject(ctx, k):
                     continue
                 must_reject(lambda: fn(M), f'{rn}: wrong shape', f'shape={name}')
                 ctx.cls('reject:matrix')
+    # history on ONE caller-owned array: converted while it is a proper rotation, then CHANGED IN PLACE into something that is not one, then
+    # converted again (no other call in between): refused like a fresh array holding the same numbers
+    spoils = [('scaled by 1.5', lambda M: np.multiply(M, 1.5, out=M)), ('first column mirrored', lambda M: np.negative(M[..., :, 0], out=M[..., :, 0])),
+              ('one element sheared', lambda M: M.__setitem__((Ellipsis, 0, 1), M[..., 0, 1] + 0.3)), ('a NaN written', lambda M: M.__setitem__((Ellipsis, 2, 2), nan))]
+    hist_routes = [('Quaternion(dcm=R)', lambda M: Quaternion(dcm=M)), ('Quaternion().from_DCM(R)', lambda M: Quaternion().from_DCM(M)), ('DCM(R)', lambda M: DCM(M)),
+                   ('QuaternionArray(DCM=[R, good])', lambda M: QuaternionArray(DCM=M)), ('DCM(stack)', lambda M: DCM(M))]
+    for rn, fn in hist_routes:
+        for sn, spoil in spoils:
+            for ir, R in enumerate(Rs[1:4]):
+                M = R.copy() if 'stack' not in rn and '[' not in rn else np.array([R.copy(), good.copy()])
+                ctx.evals += 1
+                try:
+                    fn(M); fn(M)                      # twice: the same object seen before
+                except Exception as ex:
+                    ctx.fail(f'{rn}: a proper rotation is accepted (also the second time the same array is given)', f'R#{ir + 1} k{k}', repr(ex)[:120], 'accepted'); continue
+                spoil(M)
+                must_reject(lambda: fn(M), f'{rn}: an array converted before and then changed in place into a non-rotation', f'R#{ir + 1} change={sn} k{k}')
+                ctx.cls('reject:matrix-history')
     # a REFUSED in-place call leaves the object it was called on as it was (still unit rows / a proper rotation, same elements)
     rowsQ = np.array([A.MENU[(k + j) % 8] for j in range(5)])
     badR = np.array([good, good @ np.diag([-1.0, 1.0, 1.0]), good])            # a reflection in the stack
